@@ -382,6 +382,7 @@ def main(a):
                 continue
             if r["status"] == "FAILED" and exp and not other:
                 n_ok += len(exp)
+                n_checks -= len(undet)   # checks after the expected failure point are not obligations of this harness
                 rec["status"] = "SUCCESSFUL(expected-failure)"
                 continue
             failed = other
@@ -395,6 +396,7 @@ def main(a):
                 continue
             if not other:
                 n_ok += len(exp)
+                n_checks -= len(undet)
                 rec["status"] = "SUCCESSFUL(expected-panic)"
                 continue
             failed = other
